@@ -104,6 +104,20 @@ PurityOf(q, S) == LET h == Abs(q[1]) + 2 * Abs(q[2]) + 3 * Abs(q[3]) + Len(S) + 
                     repeats   |-> 2 + (h % 2),
                     ops       |-> PurityOps ]
 
+(* ---- position relative to the poles --------------------------------------------------- *)
+\* Meshes whose elements lie at these distances from either pole, in hundredths of a degree
+\* (0.01, 0.1, 0.2, 0.3 and 1 degree), with centres DERIVED by the library, and query points inside
+\* the cap.  The library documents a snap of positions nearer than 0.0081 degree to the pole itself
+\* (|z| > 1 - 1e-8): no element is placed nearer than that except exactly on the pole.
+\* Directions that close to a pole need coordinates ~ 6 000: the cosine comparison (degree 6) leaves
+\* TLC's 32-bit integers, so these cases are judged by a float brute force on independently computed
+\* exact directions with a 1e-9 rad tie margin; the places and poles are generated here.
+CapPlaces   == << 1, 10, 20, 30, 100 >>
+CapPoles    == << 1, -1 >>
+CapUnitInv  == 5730          \* one unit = 1/5730 rad = 0.0100 degree
+CapSnapHundredths == 1       \* nothing strictly between the pole and 1 unit (0.0081 degree rounded up)
+CapPlan     == [ places |-> CapPlaces, poles |-> CapPoles, unit_inv |-> CapUnitInv ]
+
 (* ---- descriptors for the numeric side ---------------------------------------------- *)
 \* great-circle distance q--S[e] = atan2(sqrt(num), dot); chord = 2 sin(angle / 2)
 DistDescr(q, S) == [ e \in Idx(S) |-> GeoDescr(q, S[e]) ]
